@@ -144,3 +144,23 @@ def batch3():
 
 if __name__ == '__main__':
     batch3()
+
+
+def c12pins():
+    # known: error swallowed in additions
+    inner = seq(M('value', Ty('BOOLEAN')), M('d', Ty('INTEGER')))
+    spec = mod([('A', seq(M('x', Ty('BOOLEAN')), ext=[M('s', inner)]))])
+    pin('C12', 'error-swallowed-in-additions', spec, 'A', {'x': True, 's': {'d': 5}}, codec='per',
+        probe='missing:value', under_addition=True, recursive_hops=0, expected_path='A.s')
+    spec = mod([('B', seq(M('a', Ty('BOOLEAN')), M('rec', Ty('REF', ref='B'), optional=True)))])
+    pin('C12', 'path-recursive-dedup', spec, 'B', {'a': True, 'rec': {'a': True, 'rec': {}}}, codec='uper',
+        probe='missing:a', under_addition=False, recursive_hops=2, expected_path='B.rec.(B).rec.(B)')
+    spec = mod([('A', Ty('ENUMERATED', enum_root=[('red', 0, False)], enum_ext=[]))])
+    pin('C12', 'enum-unknown-name-keyerror-per', spec, 'A', 'no-such-item', codec='uper',
+        probe='enum<-unknown-name', expected_path='A')
+    pin('C12', 'enum-unknown-name-keyerror-gser', spec, 'A', 'no-such-item', codec='gser',
+        probe='enum<-unknown-name', expected_path='A')
+
+
+if __name__ == '__main__':
+    c12pins()
